@@ -31,6 +31,8 @@ class SQLLiteQueryBuilder(QueryBuilder):
     QUERY_CLS = SQLLiteQuery
 
     def __init__(self, **kwargs) -> None:
+        # SQLite's grammar has no parenthesised operands of UNION / INTERSECT / EXCEPT
+        kwargs.setdefault("wrap_set_operation_queries", False)
         super().__init__(wrapper_cls=SQLLiteValueWrapper, **kwargs)
 
     def _apply_pagination(self, querystring: str, ctx: SqlContext) -> str:
